@@ -40,7 +40,7 @@ ASSUMPTIONS = [
   'with overwrite=True a crash in the middle of removing several newer steps may leave an intermediate newer step as latest; the oracle then requires latest to be a complete previously committed step (narrow reading, see DESIGN.md)',
   'save_checkpoint_multiprocess is covered on one host without multi-process arrays only; multi-host arrays, GCS paths, Orbax AsyncCheckpointer are not covered',
 ]
-PROBES = ['entry_multiprocess', 'legacy_debris_in_orbax_dir', 'source_mutated_after_async_save', 'restore_by_path', 'orbax_histories', 'half_deleted_old_step', 'leftover_tmp_after_crash', 'crash_after_commit', 'crash_before_commit', 'retry_rejected_committed', 'overwrite_removed_newer', 'keep_every_retained', 'chunked_leaf', 'async_latest_in_flight', 'sweep_points', 'policy_error_expected', 'torn_write', 'ioerror_runs']
+PROBES = ['async_save_failed_with_ioerror', 'entry_multiprocess', 'legacy_debris_in_orbax_dir', 'source_mutated_after_async_save', 'restore_by_path', 'orbax_histories', 'half_deleted_old_step', 'leftover_tmp_after_crash', 'crash_after_commit', 'crash_before_commit', 'retry_rejected_committed', 'overwrite_removed_newer', 'keep_every_retained', 'chunked_leaf', 'async_latest_in_flight', 'sweep_points', 'policy_error_expected', 'torn_write', 'ioerror_runs']
 
 GOOD_PREFIXES = ['checkpoint_', 'ckpt', 'a_b_', 'run1_', 'model.x']
 BAD_PREFIXES = ['m-', 'v2.', 'run1']  # end in '-', '.', digit: were glued to the step before fix 943634b
@@ -165,7 +165,7 @@ def generate(rs, tier):
         if fk < (0.2 if knobs['backend'] == 'legacy' else 0.06) and not swept and not asyn:
           op['sweep'] = True
           swept = True
-        elif fk < 0.75 or asyn:
+        elif fk < 0.75 or (asyn and fk < 0.9):
           op['fault'] = dict(kind='crash', at=g.randrange(0, 64), torn=g.choice([None, 'one', 0.5, 'allbutone']))
         else:
           op['fault'] = dict(kind='ioerror', at=g.randrange(0, 64), torn=g.choice([None, 0.5]), err=g.choice(['EIO', 'ENOSPC']))
@@ -772,16 +772,36 @@ class World:
     if not self.asyn or self.am is None:
       return
     p = self.pending
+    err = None
     try:
       self.am.wait_previous_save()
     except D.SimCrash:
       pass
     except (S.Deadlock, S.StepCap) as e:
       raise Violation('async-deadlock', f'op {oi} wait: {e}')
+    except Exception as e:  # noqa: BLE001 -- the background save's own failure may surface here
+      err = e
     if self.disk.frozen:
       self.log.add(oi, 'wait', 'crash')
       self.handle_crash(oi, p['op'], p['ent'], p['before'], p['where'])
       return
+    f = self.disk.fired
+    if p is not None and p.get('fault') is not None and p['fault']['kind'] == 'ioerror' and f is not None and f['kind'] == 'ioerror':
+      # the asynchronous save failed with the injected I/O error (whether or not wait re-raised it): an interrupted
+      # save, old-or-new rule; the process and its AsyncManager live on and later saves must work
+      self.pending = None
+      if self.completed and self.completed[-1][0] is p['op']:
+        self.completed.pop()
+      self.model = dict(p['before'])
+      self.model_at_fault = p['before']
+      self.note_fault(p['op'])
+      self.last_faulted = (p['op'], p['ent'])
+      self.res.probe('async_save_failed_with_ioerror')
+      self.log.add(oi, 'wait', 'ioerror')
+      self.after_interruption(p['op'], p['ent'], p['before'], p['where'] + ' after injected I/O error in the background save ' + str(f))
+      return
+    if err is not None:
+      raise Violation('unexpected-exception', f'op {oi} wait_previous_save raised {type(err).__name__}: {err} although no fault is pending')
     self.pending = None
     self.log.add(oi, 'wait', 'ok')
     if p is not None and p.get('fault') is not None and self.disk.fired is None:
